@@ -36,8 +36,24 @@ fn mask_bytes(width_bits: usize) -> Vec<u8> {
 }
 
 fn push_value(a: &mut vm::Asm, r: &mut Rng) {
-    a.push_u(4 + 32 * (4 + r.below(3)) as u64);
-    a.op(0x35);
+    push_value_m(a, r, true)
+}
+
+/// `narrow`: may the value be narrowed by a mask of its own (not when the caller masks it again:
+/// a mask nested in a narrower field is finding D20's shape, kept to its own generator)
+fn push_value_m(a: &mut vm::Asm, r: &mut Rng, narrow: bool) {
+    if r.chance(1, 3) {
+        // a numeric environment word, raw or narrowed by a mask (the same opcode may be read by
+        // several fragments: every read is its own value)
+        a.op([0x34u8, 0x42, 0x43, 0x3a, 0x46, 0x48, 0x45, 0x44][r.below(8)]);
+        if narrow && r.chance(1, 2) {
+            a.push_word(&vec![0xff; [1usize, 4, 8, 16][r.below(4)]]);
+            a.op(0x16);
+        }
+    } else {
+        a.push_u(4 + 32 * (4 + r.below(3)) as u64);
+        a.op(0x35);
+    }
 }
 
 /// leaves the storage key of `v` on the stack
@@ -113,7 +129,7 @@ fn bodies(r: &mut Rng, v: &Var) -> Vec<Vec<u8>> {
                         for i in 0..w / 8 {
                             hole[31 - sh / 8 - i] = 0;
                         }
-                        push_value(a, r);
+                        push_value_m(a, r, false);
                         a.push_word(&mask_bytes(w));
                         a.op(0x16);
                         if sh > 0 {
@@ -153,7 +169,7 @@ fn bodies(r: &mut Rng, v: &Var) -> Vec<Vec<u8>> {
                             if r.chance(1, 2) {
                                 a.op(0x33);
                             } else {
-                                push_value(a, r);
+                                push_value_m(a, r, false);
                                 a.push_word(&[0xff; 20]);
                                 a.op(0x16);
                             }
